@@ -39,7 +39,9 @@ def fingerprint(rec):
                 parts.append("acceptor's peer maximum is not the requestor's local maximum")
         return "establish outcome: " + ", ".join(parts)
     if ev == "send":
-        return "%s %s ret=%s with %d PDU(s) on the wire" % (rec.get("side"), rec.get("via"), str(rec.get("ret"))[:40], len(rec.get("wire", [])))
+        return "%s %s (%s) ret=%s with %d PDU(s) on the wire" % (
+            rec.get("side"), rec.get("via"), "%d PDVs" % len(rec["pdvs"]) if rec.get("pdvs") else "single PDV",
+            str(rec.get("ret"))[:40], len(rec.get("wire", [])))
     return "event %s" % ev
 
 
@@ -50,7 +52,7 @@ def run(ctx):
                 "(1-4 contexts, maximum PDU lengths {0, below minimum, minimum, 4096, 16384, largest, beyond largest} on both "
                 "sides, role selection / extended negotiation items, access control) with the property's sentences as "
                 "invariants; every case is run with the real requestor against the real acceptor through a recording proxy, "
-                "followed by send / send_pdata calls just below, at and above the negotiated limits; recorded events are "
+                "followed by send / send_pdata calls just below, at and above the negotiated limits (single-PDV PDUs and PDUs of 2, 3 and 8 PDVs up to limit + 6 per extra PDV + 1); recorded events are "
                 "validated by TLC. distinct_nontrivial = distinct (options, configuration) pairs executed.")
     ctx.assumptions += [
         "a local maximum PDU length outside the library's documented range (below 1018, 0) makes that end unable to "
